@@ -272,6 +272,16 @@ def oracle(case, ob):
         if not admissible(g, kw):
             return None
         return ("%s/exception" % g, "%s(%s) raised %s: %s" % (g, short(kw), ob.get("exc_type"), ob["exc"][:200]))
+    fr = ob.get("fresh")
+    if fr is not None:
+        if fr.get("error"):
+            return ("%s/second-call" % g, "%s(%s): the second call with the same parameters failed: %s" % (g, short(kw), fr["error"]))
+        if fr["same_object"] or fr["shared"]:
+            return ("%s/not-fresh" % g, "%s(%s): two calls with the same parameters return %s; editing the first result in place changes the second"
+                    % (g, short(kw), "the same mesh object" if fr["same_object"] else "meshes sharing %s" % fr["shared"]))
+        if not fr["second_equal"]:
+            return ("%s/not-fresh" % g, "%s(%s): after the first result was edited in place a second call returns a different mesh: %s"
+                    % (g, short(kw), json.dumps(fr["second"])[:300]))
     if not accepted(g, kw):
         return ("%s/not-rejected" % g, "%s(%s) is below the generator's minimum resolution and did not raise" % (g, short(kw)))
     if not admissible(g, kw):
